@@ -141,14 +141,21 @@ func TestVerifC16Kernel(t *testing.T) {
 	defer m.Close()
 	r := NewVRand(VSeed())
 
-	// (a) the closure itself
+	// (a) the closure itself: exactly one slot of the whole map changes, to the expected value
+	c16kFill(m)
 	for _, ob := range []int{0, 1, 2, 7, 41, 255} {
 		for _, tok := range c16kAll {
 			for _, alive := range []bool{false, true} {
 				for _, init := range []bool{false, true} {
-					c16kFill(m)
 					core.outboundAliveChangeCallback(uint8(ob), false)(alive, c16kNT(tok), init)
-					st.Emit(fmt.Sprintf("key %d %s %s", ob, tok, c16kBool(alive)), c16kChanged(m))
+					ch := c16kChanged(m)
+					st.Emit(fmt.Sprintf("key %d %s %s", ob, tok, c16kBool(alive)), ch)
+					var k, v uint32
+					if n, _ := fmt.Sscanf(ch, "key=%d val=%d", &k, &v); n == 2 {
+						_ = m.Update(k, c16kSentinel, ebpf.UpdateAny)
+					} else {
+						c16kFill(m)
+					}
 					stats.Inc("closure")
 				}
 			}
